@@ -21,7 +21,9 @@ import (
 	"flag"
 	"fmt"
 	ghttp "net/http"
+	"net/http/httptest"
 	"os"
+	"strconv"
 	"strings"
 
 	"verif/harness/internal/hx"
@@ -59,6 +61,7 @@ type hStep struct {
 }
 
 type hBeh struct {
+	Alpha string   `json:"alpha"`
 	Steps []hStep  `json:"steps"`
 	Objs  []string `json:"objs"`
 	Sp    []string `json:"sp"`
@@ -421,46 +424,163 @@ func runOne(b *hBeh, p pair, api string, mism, drift *[]map[string]any) {
 			*mism = append(*mism, tag(map[string]any{"obs": "read-error", "got": firstLine(err.Error())}, si))
 			return
 		}
-		for oi := range b.Objs {
-			for i := range b.Sp {
-				for j := 0; j <= len(b.Keys); j++ {
-					got := after[oi][i][j]
-					// requirement layer
-					switch r := st.R[oi][i][j]; {
-					case r == "?":
-					case r == "~":
-						if got != before[oi][i][j] {
-							kind := "frame"
-							if b.Objs[oi] != "_" && b.Objs[oi] != st.Op.O {
-								kind = "frame-object"
-							}
-							*mism = append(*mism, tag(map[string]any{"obs": kind, "cell": cellName(b, oi, i, j),
-								"cell_kind": cellKind(j), "expected": before[oi][i][j], "got": got}, si))
-						}
-					default:
-						if got != r {
-							*mism = append(*mism, tag(map[string]any{"obs": "readback", "cell": cellName(b, oi, i, j),
-								"cell_kind": cellKind(j), "expected": r, "got": got}, si))
-						}
+		compareStep(b, &st, si, before, after, tag, mism, drift)
+		before = after
+	}
+}
+
+// compareStep compares the read-back after step si with what both layers of the specification say
+func compareStep(b *hBeh, st *hStep, si int, before, after [][][]string, tag func(map[string]any, int) map[string]any, mism, drift *[]map[string]any) {
+	for oi := range b.Objs {
+		for i := range b.Sp {
+			for j := 0; j <= len(b.Keys); j++ {
+				got := after[oi][i][j]
+				// requirement layer
+				switch r := st.R[oi][i][j]; {
+				case r == "?":
+				case strings.HasPrefix(r, "+"):
+					if want := appended(before[oi][i][j], r[1:]); got != want {
+						*mism = append(*mism, tag(map[string]any{"obs": "readback", "cell": cellName(b, oi, i, j),
+							"cell_kind": cellKind(j), "expected": want, "got": got}, si))
 					}
-					// spelling law: every spelling of one header reads alike
-					for i2 := 0; i2 < i; i2++ {
-						if b.Canon[i2] == b.Canon[i] {
-							if after[oi][i2][j] != got {
-								*mism = append(*mism, tag(map[string]any{"obs": "spelling", "cell": cellName(b, oi, i, j),
-									"cell_kind": cellKind(j), "other": cellName(b, oi, i2, j), "expected": after[oi][i2][j], "got": got}, si))
-							}
-							break
+				case r == "~":
+					if got != before[oi][i][j] {
+						kind := "frame"
+						if b.Objs[oi] != "_" && b.Objs[oi] != st.Op.O {
+							kind = "frame-object"
 						}
+						*mism = append(*mism, tag(map[string]any{"obs": kind, "cell": cellName(b, oi, i, j),
+							"cell_kind": cellKind(j), "expected": before[oi][i][j], "got": got}, si))
 					}
-					// mechanism layer
-					if got != st.M[oi][i][j] {
-						*drift = append(*drift, tag(map[string]any{"obs": "mechanism-readback", "cell": cellName(b, oi, i, j),
-							"expected": st.M[oi][i][j], "got": got}, si))
+				default:
+					if got != r {
+						*mism = append(*mism, tag(map[string]any{"obs": "readback", "cell": cellName(b, oi, i, j),
+							"cell_kind": cellKind(j), "expected": r, "got": got}, si))
 					}
+				}
+				// spelling law: every spelling of one header reads alike
+				for i2 := 0; i2 < i; i2++ {
+					if b.Canon[i2] == b.Canon[i] {
+						if after[oi][i2][j] != got {
+							*mism = append(*mism, tag(map[string]any{"obs": "spelling", "cell": cellName(b, oi, i, j),
+								"cell_kind": cellKind(j), "other": cellName(b, oi, i2, j), "expected": after[oi][i2][j], "got": got}, si))
+						}
+						break
+					}
+				}
+				// mechanism layer
+				if got != st.M[oi][i][j] {
+					*drift = append(*drift, tag(map[string]any{"obs": "mechanism-readback", "cell": cellName(b, oi, i, j),
+						"expected": st.M[oi][i][j], "got": got}, si))
 				}
 			}
 		}
+	}
+}
+
+// appended is the relation the specification states for `+=`: what the cell read before (nothing if not set),
+// followed by the text, up to the first newline
+func appended(before, text string) string {
+	cur := ""
+	if strings.HasPrefix(before, "=") {
+		cur = before[1:]
+	}
+	v, _, _ := strings.Cut(cur+text, "\n")
+	return "=" + v
+}
+
+// ---- alphabet "flow": the history of req inside a real request that restarts ---------------------------------
+
+type flowDbg struct{ logs []string }
+
+func (d *flowDbg) Run(ast.Node) interpreter.DebugState { return interpreter.DebugPass }
+func (d *flowDbg) Message(string)                      {}
+func (d *flowDbg) Log(_ *ast.LogStatement, v string)   { d.logs = append(d.logs, v) }
+
+// flowVCL renders the operations into vcl_recv: one branch per pass (req.restarts == n), a `restart;` operation ends
+// the branch, the last branch ends in `error 700;` (no backend is needed). After every operation - for a restart:
+// at the start of the next pass - every cell is read back through a condition (set / not set) and a log line.
+func flowVCL(b *hBeh) string {
+	var sb strings.Builder
+	read := func(si int) {
+		for i, sp := range b.Sp {
+			for j := 0; j <= len(b.Keys); j++ {
+				k := ""
+				if j > 0 {
+					k = b.Keys[j-1]
+				}
+				n := varName("req", sp, k)
+				fmt.Fprintf(&sb, "    if (%s) { log \"R|%d|%d|%d|S|\" %s; } else { log \"R|%d|%d|%d|N\"; }\n", n, si, i, j, n, si, i, j)
+			}
+		}
+	}
+	sb.WriteString("backend example { .host = \"127.0.0.1\"; .port = \"9\"; }\nsub vcl_recv {\n  if (req.restarts == 0) {\n")
+	read(-1)
+	pass := 0
+	for si, st := range b.Steps {
+		if st.Op.Op == "restart" {
+			pass++
+			fmt.Fprintf(&sb, "    restart;\n  }\n  if (req.restarts == %d) {\n", pass)
+		} else {
+			sb.WriteString("    " + vclStmt("req", st.Op) + "\n")
+		}
+		read(si)
+	}
+	sb.WriteString("    error 700;\n  }\n}\n")
+	return sb.String()
+}
+
+func runFlow(b *hBeh, mism, drift *[]map[string]any) {
+	tag := func(m map[string]any, stepIdx int) map[string]any {
+		m["object"], m["scope"], m["api"], m["step"] = "req", "recv-flow", "vcl", stepIdx
+		o := b.Steps[stepIdx].Op
+		m["op"], m["op_name"], m["op_key"], m["op_vk"], m["op_value"] = o.Op, o.N, o.K, o.VK, o.V
+		return m
+	}
+	dbg := &flowDbg{}
+	func() {
+		defer func() {
+			if r := recover(); r != nil {
+				dbg.logs = append(dbg.logs, fmt.Sprintf("PANIC|%v", r))
+			}
+		}()
+		ip := interpreter.New(context.WithResolver(resolver.NewStaticResolver("main", flowVCL(b))))
+		ip.Debugger = dbg
+		ip.ServeHTTP(httptest.NewRecorder(), httptest.NewRequest("GET", "http://localhost/", nil))
+	}()
+	snaps := map[int][][]string{}
+	for _, l := range dbg.logs {
+		f := strings.SplitN(l, "|", 6)
+		if len(f) < 5 || f[0] != "R" {
+			continue
+		}
+		si, _ := strconv.Atoi(f[1])
+		i, _ := strconv.Atoi(f[2])
+		j, _ := strconv.Atoi(f[3])
+		if snaps[si] == nil {
+			snaps[si] = make([][]string, len(b.Sp))
+			for x := range snaps[si] {
+				snaps[si][x] = make([]string, 1+len(b.Keys))
+			}
+		}
+		if f[4] == "N" {
+			snaps[si][i][j] = "!"
+		} else if len(f) == 6 {
+			snaps[si][i][j] = "=" + f[5]
+		}
+	}
+	before, ok := snaps[-1]
+	if !ok {
+		*mism = append(*mism, tag(map[string]any{"obs": "op-error", "got": "no read-back at all: " + firstLine(strings.Join(dbg.logs, " / "))}, 0))
+		return
+	}
+	for si := range b.Steps {
+		after, ok := snaps[si]
+		if !ok {
+			*mism = append(*mism, tag(map[string]any{"obs": "op-error", "got": "the request did not get past this operation"}, si))
+			return
+		}
+		compareStep(b, &b.Steps[si], si, [][][]string{before}, [][][]string{after}, tag, mism, drift)
 		before = after
 	}
 }
@@ -524,7 +644,12 @@ func c17Replay(args []string) int {
 		var mism, drift []map[string]any
 		runs := 0
 		multi := len(b.Objs) > 0 && b.Objs[0] != "_"
-		if multi {
+		if b.Alpha == "flow" {
+			// one real request through ServeHTTP, the operations in vcl_recv across restarts
+			runFlow(&b, &mism, &drift)
+			runs++
+			multi = true // nothing else to replay
+		} else if multi {
 			// several objects of ONE context: VCL statements, the scope switched per object
 			if expressible(&b, "vcl") {
 				runOne(&b, pair{"req", "recv"}, "vcl", &mism, &drift)
